@@ -129,6 +129,59 @@ def family_units(envs=(('EXPLICIT', False),)):
                        [(n, types[n], 'fam:' + lab) for n in tops], dict(types), tags, ei)
 
 
+def same_name_units(envs=(('EXPLICIT', False),)):
+    """Components with the SAME identifier that refer to the SAME named type with different attributes
+    (SIZE, OPTIONAL, DEFAULT, a tag, nothing) in different parent types.  The compiled-type cache of
+    asn1tools/codecs/compiler.py is keyed (module, type name, component identifier), so all these parents
+    get one cached object and each has to work on its own copy (the shallow-copy sites of compile_member).
+    Plain parents come first AND last, so a leak shows whichever parent is compiled first.
+
+    `Os (SIZE (2))` is a reference with a constraint applied to it.  The term language has no such node;
+    it is represented as a Ref whose *name* is that text (printed verbatim by the renderer) and whose
+    environment entry is the effective constrained type, so every model sees the right type.  Virtual
+    entries are not rendered as assignments."""
+    from .tagging import legalize
+    B = Leaf('BOOLEAN')
+    real = {
+        'Iu': Leaf('INTEGER', rng=Rng(0, 255)),
+        'Os': Leaf('OCTETSTRING'),
+        'Ls': Of(B),
+        'St': Leaf('IA5String'),
+    }
+    virtual = {
+        'Os (SIZE (2))': Leaf('OCTETSTRING', size=Rng(2, 2, single=True)),
+        'Os (SIZE (0..3))': Leaf('OCTETSTRING', size=Rng(0, 3)),
+        'Os (SIZE (1))': Leaf('OCTETSTRING', size=Rng(1, 1, single=True)),
+    }
+    # (SIZE applied to a reference is used on OCTET STRING only: for BIT STRING, SEQUENCE OF and - in OER -
+    # character strings the codecs ignore a SIZE given on a reference altogether, e.g. `l Ls (SIZE (1..3))` is
+    # encoded with an unconstrained length; seen while building this family, see DESIGN 7.3)
+    plain = Seq((M('x', Ref('Iu')), M('k', Ref('Os')), M('l', Ref('Ls')), M('s', Ref('St')), M('y', B)))
+    parents = [
+        ('P0', plain),
+        ('P1', Seq((M('x', Ref('Iu'), 'O'), M('k', Ref('Os (SIZE (2))')), M('l', Ref('Ls')),
+                    M('s', Ref('St')), M('y', B)))),
+        ('P2', Seq((M('x', Ref('Iu'), 'D', default=7), M('k', Ref('Os (SIZE (0..3))')), M('l', Ref('Ls'), 'O'),
+                    M('s', Ref('St'), 'O'), M('y', B)))),
+        ('P3', Seq((M('x', Tag(3, Ref('Iu'))), M('k', Tag(4, Ref('Os'))), M('l', Ref('Ls'), 'O'),
+                    M('s', Ref('St'), 'O'), M('y', B)))),
+        ('P4', Cho((M('x', Ref('Iu')), M('k', Ref('Os (SIZE (1))')), M('y', B)))),
+        ('P5', plain),
+    ]
+    out = []
+    for tags, ei in envs:
+        env = dict(real)
+        env.update(virtual)
+        types = [(n, legalize(t, env, tags)) for n, t in parents]
+        rendered = types + [(n, t) for n, t in real.items()]
+        mod = Module('M', rendered, tags=tags, ext_implied=ei, values=list(A.VALUE_REFS))
+        full = dict(rendered)
+        full.update(virtual)
+        out.append(Unit('fam/same-name/%s%s' % (tags, '+EI' if ei else ''), render_module(mod),
+                        [(n, t, 'fam:same-name') for n, t in types], full, tags, ei))
+    return out
+
+
 ENVS_QUICK = (('EXPLICIT', False), ('AUTOMATIC', False))
 ENVS_ALL = (('EXPLICIT', False), ('IMPLICIT', False), ('AUTOMATIC', False),
             ('EXPLICIT', True), ('AUTOMATIC', True))
@@ -148,6 +201,7 @@ def standard_units(tier):
         out += l1_units(2, 1, envs=(('AUTOMATIC', False),))
     out += l2_units(thorough, envs=ENVS_QUICK if not thorough else ENVS_ALL)
     out += family_units(envs=ENVS_QUICK if not thorough else ENVS_ALL)
+    out += same_name_units(envs=ENVS_QUICK if not thorough else ENVS_ALL)
     return out
 
 
